@@ -112,6 +112,69 @@ def genPaths (A : Arr) (limit : Nat) : Outcome (List (Array (Option Bool))) := d
   if !fin then Outcome.panic "fuel"
   return acc.reverse
 
+/-- harness `fmt_partial`: `01-` over n variables (`~` if n = 0), set variables ≥ n appended as `;idx=val` -/
+def fmtPartial (p : Array (Option Bool)) (n : Nat) : String :=
+  let head := String.ofList ((List.range n).map fun i => match Gen.Rust.pvalIndex p i with
+    | some true => '1' | some false => '0' | none => '-')
+  let head := if head.isEmpty then "~" else head
+  let extra := (List.range p.size).foldl (fun acc i => if i < n then acc else match Gen.Rust.pvalIndex p i with
+    | some b => acc ++ s!";{i}={if b then 1 else 0}" | none => acc) ""
+  head ++ extra
+
+def fmtSeq (cs : List (Array (Option Bool))) (n : Nat) : String :=
+  s!"{cs.length}:" ++ ",".intercalate (cs.map (fmtPartial · n))
+
+def fmtSlash (cs : List (Array (Option Bool))) (n : Nat) : String :=
+  if cs.isEmpty then "." else "/".intercalate (cs.map (fmtPartial · n))
+
+def showOClauses (f : List (Array (Option Bool)) → String) : Outcome (List (Array (Option Bool))) → String
+  | .ok cs => f cs
+  | .err _ => "err"
+  | .panic m => if isFuel m then "panic:fuel" else "panic"
+
+/-- number of items announced by an observed `k:…` / `a/b/c` field (0 when it is `panic`) -/
+def countSeq (s : String) : Nat := ((s.splitOn ":").headD "0").toNat?.getD 0
+def countSlash (s : String) : Nat := if s == "." || s == "panic" then 0 else (s.splitOn "/").length
+
+def fuelPaths (A : Arr) (k : Nat) : Nat := 8 * (k + 2) * (A.size + numVars A + 8)
+
+def genDnf (A : Arr) (k : Nat) : Outcome (List (Array (Option Bool))) :=
+  (Bdd_to_dnf (fuelPaths A k) A).map (·.toList)
+def genCnf (A : Arr) : Outcome (List (Array (Option Bool))) :=
+  (Bdd_to_cnf (numVars A + 8) A).map (·.toList)
+
+def showWitness : Outcome (Option (Array Bool)) → String
+  | .ok (some v) => if v.isEmpty then "~" else showBits v.toList
+  | .ok none => "none"
+  | .err _ => "err"
+  | .panic m => if isFuel m then "panic:fuel" else "panic"
+
+/-- `ValuationsOfClauseIterator::new(clause, n).collect()` through the generated `new` / `next` (and `BddValuation::next`) -/
+def genClauseVals (clause : Array (Option Bool)) (n : Nat) (limit : Nat) : Outcome (List (Array Bool)) := do
+  let mut it ← ValuationsOfClauseIterator_new clause n
+  let mut acc : List (Array Bool) := []
+  let mut fin := false
+  for _ in [0:limit + 1] do
+    let (item, it') ← ValuationsOfClauseIterator_next it
+    it := it'
+    match item with
+    | none =>
+      fin := true
+      break
+    | some v => acc := v :: acc
+  if !fin then Outcome.panic "fuel"
+  return acc.reverse
+
+def fmtVals : Outcome (List (Array Bool)) → String
+  | .ok vs => s!"{vs.length}:" ++ ",".intercalate (vs.map fun v => if v.isEmpty then "~" else showBits v.toList)
+  | .err _ => "err"
+  | .panic m => if isFuel m then "panic:fuel" else "panic"
+
+/-- harness `parse_partial`: `01-` string, `~` = empty; position i is variable i (set through `from_values`) -/
+def parsePartial (t : String) : Array (Nat × Bool) :=
+  if t == "~" then #[] else
+  ((t.toList.zipIdx).filterMap fun (c, i) => if c == '1' then some (i, true) else if c == '0' then some (i, false) else none).toArray
+
 def handle (key : String) (ins obs : List String) : Verdict :=
   match key, ins, obs with
   -- ------------------------------------------------------------------ C01
@@ -346,6 +409,42 @@ def handle (key : String) (ins obs : List String) : Verdict :=
     match parseArrE? bdd with
     | some A => if v == "noeval" then skip else mk (genValidate A) v none ["validate"]
     | none => skip
+  -- ------------------------------------------------------------------ C08 / C10 / C11 (enumeration, normal forms, witnesses)
+  | "C08.clauses", [a], [it, dnf] =>
+    match parseArr? a with
+    | some A =>
+      let n := numVars A
+      let g1 := showOClauses (fmtSeq · n) (genPaths A (max (countSeq it) (countSeq dnf) + 2))
+      let g2 := showOClauses (fmtSeq · n) (genDnf A (countSeq dnf))
+      mk s!"{g1} {g2}" s!"{it} {dnf}" none ["path_iterator", "to_dnf"]
+    | none => Verdict.bad "args"
+  | "C10.ext", [a], dnf :: cnf :: _ =>
+    match parseArr? a with
+    | some A =>
+      let n := numVars A
+      let g1 := showOClauses (fmtSlash · n) (genDnf A (countSlash dnf))
+      let g2 := showOClauses (fmtSlash · n) (genCnf A)
+      mk s!"{g1} {g2}" s!"{dnf} {cnf}" none ["to_dnf", "to_cnf"]
+    | none => Verdict.bad "args"
+  | k, [a], [w, _, _, _, _, _, _, _, _, _, isC, isV] =>
+    if k != "C11.sel" && k != "C11.nc" then skip else
+    match parseArr? a with
+    | some A =>
+      let g := s!"{showWitness (Bdd_sat_witness A)} {showOB (Bdd_is_clause (fuel1 A) A)} {showOB (Bdd_is_valuation (fuel1 A) A)}"
+      mk g s!"{w} {isC} {isV}" none ["sat_witness", "is_clause", "is_valuation"]
+    | none => Verdict.bad "args"
+  | "C08.cvals", [c, ns], [res] =>
+    match ns.toNat? with
+    | some n =>
+      let g : Outcome (List (Array Bool)) := do
+        let clause ← BddPartialValuation_from_values (parsePartial c)
+        genClauseVals clause n (countSeq res + 2)
+      mk (fmtVals g) res none ["BddValuation_next", "clause_valuations"]
+    | none => Verdict.bad "args"
+  | "C08.uvals", [ns], u :: _ =>
+    match ns.toNat? with
+    | some n => mk (fmtVals (genClauseVals #[] n (countSeq u + 2))) u none ["BddValuation_next", "clause_valuations"]
+    | none => Verdict.bad "args"
   | _, _, _ => skip
 
 end B.Drive.Algo
